@@ -65,14 +65,15 @@ CLAIMED = {
         technique="contract-based deductive verification: VCs from the real AST over opaque table terms and the polynomial vector abstraction, z3 + cvc5; bounded stand-ins for the two cross tables",
         design="5/C13"),
     "C19": dict(
-        text="PARTIAL (six of nine functions). seqs_to_consensus (align=False, equal-length gap-free sequences): loop invariant + post - one residue per position, each a "
+        text="PARTIAL (seven of the nine functions named by the property; similarity_clustermap / ClusterGridSplit and seqlogos_vj are not covered). seqs_to_consensus (align=False, equal-length gap-free sequences): loop invariant + post - one residue per position, each a "
              "most frequent residue of its column of logomaker's count matrix. seqs_to_regex (same domain): loop invariant against a recursive "
              "spec function - the result is, position by position, the single observed residue or the bracketed sorted set of observed residues. "
              "rankfrequency: exactly one Axes.step call whose x data are the non-missing values (frequencies when normalised) in descending order "
              "times scalex and whose y data are the 0-based ranks times scaley (divided by the count when normalize_y), log scales set only when "
              "asked, on the given or the current Axes. labels_to_colors_hls (any label list, min_count None or an integer): one colour per label, equal "
              "labels equal colours, black exactly for the labels occurring fewer than min_count times, distinct non-rare labels distinct colours "
-             "(numpy.unique / mask / in-place shuffle / dict(zip) modelled with permutation and position witnesses). density_scatter in discrete mode "
+             "(numpy.unique / mask / in-place shuffle / dict(zip) modelled with permutation and position witnesses); labels_to_colors_tableau: the same "
+             "without the distinctness clause (tab20 colours are cycled). density_scatter in discrete mode "
              "(term level): one scatter call whose x / y data are the coordinates of the distinct (x, y) rows, each once, coloured by its multiplicity, "
              "densest last when sort is set. seqlogos (equal-length sequences): returns the axes drawn on and logomaker's count matrix of exactly the "
              "given sequences, which is the matrix handed to logomaker.Logo. The other functions named by the "
